@@ -9,7 +9,7 @@ pub fn prop() -> Prop {
     Prop {
         id: "C06",
         level: "exploration",
-        rule: "every single bit of a valid packet flipped; each reserved bit individually set; all 16x16 header/footer nibbles; the four counters over all combinations of 12 boundary values (ties and all orderings); low-28 agreement variants; every field at {0,1,mid,max-1,max}; lengths 0..=200; random near-valid packets. Library vs reference accept/reject; accepted packets re-encoded from accessors and counter ordering asserted. Non-trivial = distinct 80-byte inputs with valid 0x8/0xE marks. Also: every pair of reserved bits (5 460 packets), each of the 28 trig_out bits wrong in header / footer / both with ordered counters, header and footer deviating by -d/+d, +d/+d, d/2d, lengths congruent to 80 modulo 2^8 and 2^16, alignment independence.",
+        rule: "every single bit of a valid packet flipped; each reserved bit individually set; all 16x16 header/footer nibbles; the four counters over all combinations of 12 boundary values (ties and all orderings); low-28 agreement variants; every field at {0,1,mid,max-1,max}; lengths 0..=200; random near-valid packets. Library vs reference accept/reject; accepted packets re-encoded from accessors and counter ordering asserted. Non-trivial = distinct 80-byte inputs with valid 0x8/0xE marks. Also: every pair of reserved bits (5 460 packets), each of the 28 trig_out bits wrong in header / footer / both with ordered counters, header and footer deviating by -d/+d, +d/+d, d/2d, lengths congruent to 80 modulo 2^8 and 2^16, alignment independence. Also (round 4): every byte offset x width 1/2/4 set to every integer literal found in the library sources (read from the tree under test) or a boundary value, alone and jointly with every single-bit flip and every byte forced to 00/FF elsewhere (about 10^7 packets), accept/reject against the reference and round trip.",
         assumptions: &["reference TRG v3 layout (harness/src/refs.rs::trg_ref) transcribes the statement"],
         profiles: both,
         shards: shards16,
@@ -77,7 +77,41 @@ pub fn check(ctx: &mut Ctx, b: &[u8], what: &str) {
     }
 }
 
+/// accept/reject against the reference and the round trip only (for the very large enumerations)
+fn check_light(ctx: &mut Ctx, b: &[u8], what: &str) {
+    ctx.eval();
+    let r = trg_ref(b);
+    match guard(|| TrgV3Packet::try_from(b).map(|p| trg_reencode(&p))) {
+        Err(p) => ctx.panic_violation("TrgV3Packet::try_from", &p, json!({"bytes": hex(b)})),
+        Ok(Ok(_)) if !r => ctx.violation("ill-formed TRG packet accepted", what.to_string(), json!({"bytes": hex(b)})),
+        Ok(Err(e)) if r => ctx.violation("well-formed TRG packet rejected", format!("{} ({})", what, e), json!({"bytes": hex(b)})),
+        Ok(Ok(re)) => {
+            if re != b {
+                ctx.violation("re-encoding accessors does not reproduce the 80 bytes", what.to_string(), json!({"bytes": hex(b)}));
+            }
+        }
+        Ok(Err(_)) => {}
+    }
+}
+
 fn run(ctx: &mut Ctx) {
+    // one field at a constant taken from the library's own sources (or a boundary value) and, jointly, any one bit
+    // or byte elsewhere changed: acceptance must not hinge on particular values of unconstrained fields
+    let dict = super::source_dictionary("detector/src");
+    ctx.cases("dictionary-pairs", 80, |ctx, off, rng| {
+        let mut n = 0;
+        for out in [0x0123_4567u32, 0] {
+            let seed = Trg::simple(rng.next() as u32, out).encode();
+            let mut acc = 0u64;
+            n += super::dict_pairs(&seed, off as usize, 0..80, &dict, |_| {}, |b| {
+                check_light(ctx, b, "field at a source constant + one more change");
+                acc += 1;
+            });
+            let _ = acc;
+        }
+        ctx.count_n("inputs with a field at a source constant", n);
+    });
+    ctx.require("inputs with a field at a source constant", 100_000);
     let vals: [u32; 12] = [0, 1, 2, 0x0FFF_FFFE, 0x0FFF_FFFF, 0x1000_0000, 0x1000_0001, 0x7FFF_FFFF, 0x8000_0000, 0xF000_0000, 0xFFFF_FFFE, 0xFFFF_FFFF];
     ctx.cases("structured", 16, |ctx, i, rng| {
         let base = Trg::simple(rng.next() as u32, [0x1234_5678u32, 0, 0xFFFF_FFF0, 0x0FFF_FFFF][(i % 4) as usize]);
